@@ -36,3 +36,12 @@ Theorem C07_early_return_swallows_failure :
   exists x, SR false false true x /\ y_par x = PDoneOk /\ y_kid x = KFailed /\ y_kloc x = LExec.
 Proof. exact early_return_swallows_failure. Qed.
 Print Assumptions C07_early_return_swallows_failure.
+
+(** the launching process itself dies at any moment after the clone (nobody is left to kill or reap the
+    child): the target is still never exec'ed unless the approval had been sent, and a child blocked on
+    the socket is woken by the end of file instead of waiting for ever *)
+Theorem C07_launcher_death : forall u s e x, SR u s e x -> y_par x = PCrashed ->
+  (y_acked x = false -> y_ran x = false) /\
+  (y_kid x = KUserWait \/ y_kid x = KSyncWait -> kid_steps x <> []).
+Proof. exact launcher_death. Qed.
+Print Assumptions C07_launcher_death.
